@@ -13,20 +13,38 @@ EXTENDS Builder, Json
 CONSTANT MaxBad
 Log == ndJsonDeserialize("trace.ndjson")
 N == Len(Log)
-VARIABLES c, i, defd
-tvars == <<stack, tops, last, c, i, defd>>
+VARIABLES c, i, defd, trig, seen      \* seen: builders whose Result is already reported wrong on this line (a wrong first item stays wrong)
+\* trig: since the last Reset an object was closed whose parent is an object (the situation the locus of a wrong result names)
+tvars == <<stack, tops, last, c, i, defd, trig, seen>>
 
-TraceInit == BInit /\ c = 1 /\ i = 1 /\ defd = <<>> /\ TLCSet(1, <<>>) /\ TLCSet(2, 0) /\ TLCSet(3, 0)
+TraceInit == BInit /\ c = 1 /\ i = 1 /\ defd = <<>> /\ seen = {} /\ trig = FALSE /\ TLCSet(1, <<>>) /\ TLCSet(2, 0) /\ TLCSet(3, 0)
 
 Ctx(fs) == IF fs = <<>> THEN "none" ELSE fs[Len(fs)].kind
 KeyMode(cl) == IF cl.key = <<>> THEN "nokey" ELSE "key"
 Bad(api, kind, loc, k) == <<[i |-> c, k |-> k, api |-> api, kind |-> kind, loc |-> loc]>>
 
+\* where an observed result leaves the specified one: the locus of a wrong-result deviation
+RECURSIVE DiffClass(_, _)
+DiffClass(e, g) ==
+   IF e.t # g.t THEN "kind"
+   ELSE IF e.t = "obj" THEN
+        (IF (DOMAIN e.m) \ (DOMAIN g.m) # {} THEN "missing-member"
+         ELSE IF (DOMAIN g.m) \ (DOMAIN e.m) # {} THEN "extra-member"
+         ELSE LET k == CHOOSE k \in DOMAIN e.m : e.m[k] # g.m[k] IN DiffClass(e.m[k], g.m[k]))
+   ELSE IF e.t = "arr" THEN
+        (IF Len(e.v) # Len(g.v) THEN "array-length"
+         ELSE LET k == CHOOSE k \in 1..Len(e.v) : e.v[k] # g.v[k] IN DiffClass(e.v[k], g.v[k]))
+   ELSE "value"
+
+TrigBy(cl, fs) == \/ cl.op = "Pop" /\ Len(fs) >= 2 /\ fs[Len(fs)].kind = "obj" /\ fs[Len(fs) - 1].kind = "obj"
+                  \/ cl.op = "PopAll" /\ \E j \in 2..Len(fs) : fs[j].kind = "obj" /\ fs[j - 1].kind = "obj"
+TrigAfter(cl, fs) == IF cl.op = "Reset" THEN FALSE ELSE trig \/ TrigBy(cl, fs)
+
 \* one builder's observation ob of call cl made in state (fs0, ts0) with specified post-state r; dd = definedness per earlier step
 JudgeObs(api, cl, fs0, ts0, r, ob, dd, k) ==
    (IF ob.o # r.o THEN Bad(api, IF ob.o = "panic" THEN "panic" ELSE "wrong-outcome", <<cl.op, KeyMode(cl), Ctx(fs0), r.o, ob.o>>, k) ELSE <<>>)
-   \o (IF ob.o # "panic" /\ ResultDefined(r.s, r.t) /\ ob.r # ResultOf(r.s, r.t)
-       THEN Bad(api, "wrong-result", <<cl.op, KeyMode(cl), Ctx(fs0), IF Len(fs0) >= 2 THEN fs0[Len(fs0) - 1].kind ELSE "none">>, k) ELSE <<>>)
+   \o (IF api \notin seen /\ ob.o # "panic" /\ ResultDefined(r.s, r.t) /\ ob.r # ResultOf(r.s, r.t)
+       THEN Bad(api, "wrong-result", <<IF TrigAfter(cl, fs0) THEN "after-closing-object-in-object" ELSE DiffClass(ResultOf(r.s, r.t), ob.r)>>, k) ELSE <<>>)
    \o (IF \E j \in {ob.st[n] : n \in 1..Len(ob.st)} : j <= Len(dd) /\ dd[j]
        THEN Bad(api, "result-mutated", <<cl.op, Ctx(fs0)>>, k) ELSE <<>>)
 JudgeBoth(e, fs0, ts0, r, dd, k) ==
@@ -40,6 +58,10 @@ TStep == /\ c <= N /\ i <= Len(Log[c].h)
             /\ Call(e.c)
             /\ Record(JudgeBoth(e, stack, tops, [s |-> stack', t |-> tops', o |-> last'], defd, i))
             /\ defd' = Append(defd, tops' # <<>>)
+            /\ seen' = seen \cup {b.api : b \in {x \in {JudgeBoth(e, stack, tops, [s |-> stack', t |-> tops', o |-> last'], defd, i)[n] :
+                                                             n \in 1..Len(JudgeBoth(e, stack, tops, [s |-> stack', t |-> tops', o |-> last'], defd, i))} :
+                                                    x.kind = "wrong-result"}}
+            /\ trig' = TrigAfter(e.c, stack)
          /\ i' = i + 1 /\ UNCHANGED c
 
 RECURSIVE JudgeAlts(_, _)
@@ -49,13 +71,13 @@ JudgeAlts(nx, k) == IF k > Len(nx) THEN <<>>
 \* the tokenizer law: the builders driven by the event stream hand back what oj.Parse returns for the text
 JudgeParse(L) == IF ~L.hasparse \/ L.h = <<>> THEN <<>>
                  ELSE LET e == L.h[Len(L.h)] IN
-                      (IF e.alt.o = "ok" /\ e.alt.r # L.parse THEN Bad("oj.Tokenize+alt.Builder", "differs-from-parse", <<"final">>, 0) ELSE <<>>)
-                      \o (IF e.gen.o = "ok" /\ e.gen.r # L.parse THEN Bad("oj.Tokenize+gen.Builder", "differs-from-parse", <<"final">>, 0) ELSE <<>>)
+                      (IF "alt.Builder" \notin seen /\ e.alt.o = "ok" /\ e.alt.r # L.parse THEN Bad("oj.Tokenize+alt.Builder", "differs-from-parse", <<"final">>, 0) ELSE <<>>)
+                      \o (IF "gen.Builder" \notin seen /\ e.gen.o = "ok" /\ e.gen.r # L.parse THEN Bad("oj.Tokenize+gen.Builder", "differs-from-parse", <<"final">>, 0) ELSE <<>>)
 
 TEnd == /\ c <= N /\ i > Len(Log[c].h)
         /\ Record(JudgeAlts(Log[c].nx, 1) \o JudgeParse(Log[c]))
         /\ TLCSet(2, c)
-        /\ c' = c + 1 /\ i' = 1 /\ defd' = <<>> /\ stack' = <<>> /\ tops' = <<>> /\ last' = "none"
+        /\ c' = c + 1 /\ i' = 1 /\ defd' = <<>> /\ seen' = {} /\ trig' = FALSE /\ stack' = <<>> /\ tops' = <<>> /\ last' = "none"
 
 TraceNext == TStep \/ TEnd
 TraceSpec == TraceInit /\ [][TraceNext]_tvars
